@@ -54,7 +54,8 @@ Definition fin_ok (f : factor_state) : Prop := finite f = true.
 Definition facts_ok (fs : list factor_state) : Prop := Forall fin_ok fs.
 
 (* inputs that make _amortized_computation raise PreconditionerValueError at a factor *)
-Definition is_nonfinite (r : routine_outcome) : bool := match r with SuccessNonFinite => true | _ => false end.
+Definition is_nonfinite (r : routine_outcome) : bool :=
+  match r with SuccessNonFinite | SuccessOverflowsStorage => true | _ => false end.
 Definition bad_at (fi : nat -> factor_input) (k : nat) : bool := negb (fm_finite (fi k)) || is_nonfinite (rout (fi k)).
 Definition first_bad (fi : nat -> factor_input) (k n : nat) : option nat := find (bad_at fi) (seq k n).
 (* the refresh of a block "contains a failure" *)
@@ -106,6 +107,7 @@ Proof.
     eexists; split; [reflexivity|].
     destruct (rout (fi k)) eqn:Er; cbn [candidate] in *.
     + right; auto.
+    + discriminate.
     + discriminate.
     + now left.
   - cbn in H. cbn [nth_error]. destruct (IH (S k) j f H) as [f' [H1 H2]].
@@ -866,6 +868,15 @@ Proof.
   congruence.
 Qed.
 
+(* in particular a result that is finite in the factor dtype but overflows the dtype it is stored in *)
+Corollary storage_overflow_raises c b k : b < nb c -> forall rh i,
+  refresh_step c rh i = true -> present (i b) = true -> k < nf c b ->
+  rout (fin (i b) k) = SuccessOverflowsStorage -> out_r c rh i <> Ok.
+Proof.
+  intros Hb rh i Hr Hp Hk Ho. apply (nonfinite_raises c b k Hb rh i Hr Hp Hk).
+  unfold bad_at. rewrite Ho. apply orb_true_r.
+Qed.
+
 (* -------- runs that have not raised before: the count is a function of the inputs alone ---- *)
 
 Lemma consec_pure_eq c b : forall rh ro, length ro = length rh -> Forall (fun o => o = Ok) ro ->
@@ -955,6 +966,13 @@ Module Examples.
     /\ facts_of (state_r c1 [s_nan; s_a]) 1 = facts_of (state_r c1 [s_a]) 1
     /\ map (cnt_of (state_r c1 [s_nan; s_a])) [0; 1] = [0; 1]
     /\ ptoks (state_r c1 [s_nan; s_a]) = ptoks (state_r c1 [s_a]) /\ ptoks (state_r c1 [s_a]) = [1; 1].
+  Proof. repeat split; reflexivity. Qed.
+  (* a root of 1e6 computed in float32 for a float16 block: raised, nothing stored, no parameter written *)
+  Definition s_ovf : step_input := si [bi true [fi true SuccessOverflowsStorage; okf]; bi true [okf; okf]].
+  Example storage_overflow_raises_ex :
+    out_r c1 [s_a] s_ovf = RaisePVE 0 0
+    /\ facts_of (state_r c1 [s_ovf; s_a]) 0 = facts_of (state_r c1 [s_a]) 0
+    /\ ptoks (state_r c1 [s_ovf; s_a]) = ptoks (state_r c1 [s_a]).
   Proof. repeat split; reflexivity. Qed.
   (* Inf factor matrix in block 1: block 0 (reached first) has already counted its failure *)
   Example inf_factor_raises :
